@@ -226,3 +226,23 @@ Example C01_model_examples :
   opnode_emit sample_table [106;109;112] M_direct None (Some (Ok 16)) None rc = Err ENode /\
   opnode_emit sample_table [97;115;108] M_none None None None rc = Ok [10].
 Proof. cbv zeta. repeat split; vm_compute; reflexivity. Qed.
+
+(** Operand syntax -> addressing mode (parser model): for each of the ten statement shapes, built as
+    a token list [opcode; optional size; opening punctuation; expression tokens E; closing punctuation
+    and index tokens], the parser returns the instruction node with the mode, index, size suffix and
+    operand expression the syntax denotes.  The malformed index combinations are rejected
+    ((E,x),y and (E,y),y: syntax error; #E,x: KeyError) — see Proofs/ParserShapeProofs.v. *)
+From A816 Require Import Model.Parser Proofs.ParserShapeProofs Proofs.ParserShapeTokens.
+Theorem C01_shape : forall sub f pre rest E o sz pu sh,
+  shape_hyps pre rest E o sz pu sh f ->
+  pdecl (ts_of pre rest E o sz pu sh) sub (S f) (length pre) =
+  POk (Some (AOpcode (mode_of sh) (t_value o) (vsize_of sz)
+               match sh with
+               | ShImplied => None
+               | _ => Some match pexpression (ts_of pre rest E o sz pu sh) f (qE_of pre sz pu sh) with
+                           | POk (e, _) => e
+                           | _ => nil
+                           end
+               end (index_of pu sh) o),
+       length pre + length (stmt_tokens o sz pu sh E)).
+Proof. exact C01_shape_tokens. Qed.
